@@ -14,42 +14,42 @@ var untimedAssumptions = []string{
 
 func init() {
 	checks["C01"] = func(prop, tier string) int {
-		p := []plan{{"all1", 10}, {"rep2-d3", 10}, {"part2-d4", 25}, {"rep3-d3", 80}, {"crash3-d2", 40}, {"net3-d2", 15}, {"regained5-d2", 40}}
+		p := []plan{{"all1", 30}, {"rep2-d3", 30}, {"part2-d4", 40}, {"rep3-d3", 135}, {"crash3-d2", 67}, {"net3-d2", 30}, {"regained5-d2", 70}}
 		if tier == "thorough" {
 			p = []plan{{"all1", 10}, {"all2", 150}, {"rep2-d5", 100}, {"rep3-d4", 500}, {"crash3-d3", 300}, {"net3-d3", 120}, {"lead3-d3", 300}, {"rep4-d3", 150}, {"rep5-d2", 60}, {"crash5-d2", 120}, {"part2-d5", 100}, {"part3-d3", 400}, {"part4-d3", 400}, {"regained5-d3", 300}, {"stale5-d3", 300}}
 		}
 		return clusterCheck(prop, tier, p, []string{"leader_present", "op_applied_on_2plus_nodes", "restarted_node_up", "op_acked"}, untimedAssumptions)
 	}
 	checks["C02"] = func(prop, tier string) int {
-		p := []plan{{"elect2-d3", 10}, {"elect3-d3", 60}, {"elect4-d2", 25}, {"split3-d3", 15}, {"crash3-d2", 40}, {"crash2-d3", 30}, {"part2-d4", 25}}
+		p := []plan{{"elect2-d3", 30}, {"elect3-d3", 92}, {"elect4-d2", 35}, {"split3-d3", 30}, {"crash3-d2", 67}, {"crash2-d3", 50}, {"part2-d4", 40}}
 		if tier == "thorough" {
 			p = []plan{{"elect2-d5", 100}, {"elect3-d4", 500}, {"elect4-d3", 300}, {"elect5-d2", 120}, {"split3-d4", 200}, {"crash3-d3", 300}, {"crash2-d4", 150}, {"crash4-d2", 100}}
 		}
 		return clusterCheck(prop, tier, p, []string{"leader_present", "term_3plus", "restarted_node_up"}, untimedAssumptions)
 	}
 	checks["C07"] = func(prop, tier string) int {
-		p := []plan{{"rep3-d3", 80}, {"split3-d2", 10}, {"lead3-d2", 30}, {"elect3-d2", 10}, {"crash3-d2", 40}, {"oldlong3-d2", 25}}
+		p := []plan{{"rep3-d3", 135}, {"split3-d2", 30}, {"lead3-d2", 52}, {"elect3-d2", 30}, {"crash3-d2", 67}, {"oldlong3-d2", 37}}
 		if tier == "thorough" {
 			p = []plan{{"rep3-d4", 500}, {"split3-d4", 200}, {"lead3-d3", 300}, {"elect3-d4", 400}, {"crash3-d3", 300}, {"rep4-d3", 150}, {"oldlong3-d4", 400}, {"snap3-d3", 300}}
 		}
 		return clusterCheck(prop, tier, p, []string{"leader_present", "two_leaders_different_terms", "op_acked"}, untimedAssumptions)
 	}
 	checks["C03"] = func(prop, tier string) int {
-		p := []plan{{"cli3-d2", 25}, {"rep3-d3", 80}, {"net3-d2", 15}, {"pending3-d2", 30}}
+		p := []plan{{"cli3-d2", 35}, {"rep3-d3", 135}, {"net3-d2", 30}, {"pending3-d2", 40}}
 		if tier == "thorough" {
 			p = []plan{{"cli3-d3", 200}, {"cli3-d4", 600}, {"rep3-d4", 500}, {"net3-d3", 120}, {"all2", 150}, {"rep4-d3", 150}}
 		}
 		return clusterCheck(prop, tier, p, []string{"leader_present", "op_acked", "op_applied_on_2plus_nodes"}, untimedAssumptions)
 	}
 	checks["C04"] = func(prop, tier string) int {
-		p := []plan{{"all1", 10}, {"crash2-d3", 30}, {"crash3-d2", 40}, {"lead3-d2", 30}, {"stale5-d2", 40}, {"regained5-d2", 40}, {"part2-d4", 25}}
+		p := []plan{{"all1", 30}, {"crash2-d3", 50}, {"crash3-d2", 67}, {"lead3-d2", 52}, {"stale5-d2", 72}, {"regained5-d2", 70}, {"part2-d4", 40}}
 		if tier == "thorough" {
 			p = []plan{{"all1", 10}, {"crash2-d4", 150}, {"crash3-d3", 400}, {"lead3-d3", 400}, {"stale5-d3", 300}, {"crash4-d2", 100}, {"crash5-d2", 150}}
 		}
 		return clusterCheck(prop, tier, p, []string{"leader_present", "op_acked", "restarted_node_up", "node_down"}, untimedAssumptions)
 	}
 	checks["C05"] = func(prop, tier string) int {
-		p := []plan{{"deposed3-d2", 20}, {"read3-d3", 40}, {"nvread5-d2", 120}}
+		p := []plan{{"deposed3-d2", 30}, {"read3-d3", 60}, {"nvread5-d2", 100}}
 		if tier == "thorough" {
 			p = []plan{{"deposed3-d4", 600}, {"read3-d4", 600}, {"deposed3-d3", 120}, {"nvread5-d3", 300}}
 		}
@@ -61,18 +61,18 @@ func init() {
 			if tier == "thorough" {
 				p = append(p, plan{"hvt-" + fmt.Sprint(i), 90})
 			} else {
-				p = append(p, plan{"hvq-" + fmt.Sprint(i), 10})
+				p = append(p, plan{"hvq-" + fmt.Sprint(i), 30})
 			}
 		}
 		if tier == "thorough" {
 			p = append(p, plan{"split3-d4", 200}, plan{"crash3-d3", 300}, plan{"elect3-d3", 100}, plan{"crash2-d4", 150}, plan{"stale5-d3", 300})
 		} else {
-			p = append(p, plan{"split3-d3", 20}, plan{"crash3-d2", 40}, plan{"elect3-d2", 15}, plan{"stale5-d2", 40})
+			p = append(p, plan{"split3-d3", 30}, plan{"crash3-d2", 67}, plan{"elect3-d2", 30}, plan{"stale5-d2", 72})
 		}
 		return clusterCheck(prop, tier, p, []string{"leader_present", "restarted_node_up"}, append([]string{"HANDLER suites hv*: one real node booted from preloaded storage, two puppet peers, every event sequence up to 4 (quick) / 5 (thorough) steps over RequestVote/AppendEntries/InstallSnapshot injections (terms T-1..T+1, both candidates, older/equal/newer logs, prevote or real, clock elapsed or not), own timeouts, every answer to its own requests, crash at quiescent points and armed at storage-call boundaries, restart"}, untimedAssumptions...))
 	}
 	checks["C09"] = func(prop, tier string) int {
-		p := []plan{{"mem1-d3", 15}, {"mem2-d2", 30}, {"mem3-d2", 50}, {"memlead3-d2", 60}}
+		p := []plan{{"mem1-d3", 30}, {"mem2-d2", 32}, {"mem3-d2", 60}, {"memlead3-d2", 80}}
 		if tier == "thorough" {
 			p = []plan{{"mem1-d4", 100}, {"mem2-d3", 300}, {"mem3-d3", 500}, {"memlead3-d3", 700}}
 		}
@@ -83,7 +83,7 @@ func init() {
 		return clusterCheckSched(prop, tier, p, []string{"leader_present", "op_acked", "config_changed"}, untimedAssumptions, []string{"C01", "C02", "C07"}, sp)
 	}
 	checks["C16"] = func(prop, tier string) int {
-		p := []plan{{"sticky3r0-d2", 30}, {"sticky3r1-d2", 30}, {"sticky3r2-d2", 30}, {"rejoin3r0-d3", 40}, {"rejoin3r1-d2", 20}, {"rejoin3r2-d2", 20}}
+		p := []plan{{"sticky3r0-d2", 50}, {"sticky3r1-d2", 50}, {"sticky3r2-d2", 50}, {"rejoin3r0-d3", 30}, {"rejoin3r1-d2", 30}, {"rejoin3r2-d2", 30}}
 		if tier == "thorough" {
 			p = []plan{{"sticky3r0-d3", 400}, {"sticky3r1-d3", 400}, {"sticky3r2-d3", 400}, {"rejoin3r0-d4", 400}, {"rejoin3r1-d4", 400}, {"rejoin3r2-d4", 400}}
 		}
@@ -93,7 +93,7 @@ func init() {
 			"horizon 36 intervals (6 election timeouts); deviation bound per suite"})
 	}
 	checks["C17"] = func(prop, tier string) int {
-		p := []plan{{"lease3-d2", 40}, {"cutlease3-d2", 20}, {"cutlease3-d3", 60}, {"minlease5-d2", 30}}
+		p := []plan{{"lease3-d2", 42}, {"cutlease3-d2", 30}, {"cutlease3-d3", 100}, {"minlease5-d2", 30}}
 		if tier == "thorough" {
 			p = []plan{{"lease3-d3", 600}, {"cutlease3-d4", 600}, {"minlease5-d3", 300}}
 		}
@@ -102,7 +102,7 @@ func init() {
 			"at most one outstanding read per node; horizon 14-30 intervals; deviation bound per suite"})
 	}
 	checks["C15"] = func(prop, tier string) int {
-		p := []plan{{"live-rep3-d2", 80}, {"live-mem3-d2", 30}, {"live-bigsnap3-d2", 50}, {"live-snap3-d1", 30}}
+		p := []plan{{"live-rep3-d2", 160}, {"live-mem3-d2", 55}, {"live-bigsnap3-d2", 95}, {"live-snap3-d1", 35}, {"live-termgap3-d2", 40}}
 		if tier == "thorough" {
 			p = []plan{{"live-rep3all-d2", 400}, {"live-rep3-d3", 500}, {"live-mem3all-d2", 200}, {"live-mem3-d3", 400}, {"live-bigsnap3all-d2", 300}, {"live-bigsnap3-d3", 400}, {"live-snap3all-d2", 400}, {"live-snap3-d3", 400}}
 		}
